@@ -54,6 +54,17 @@ LIST_SEPS = [",", ", ", " , ", ",  "]
 PARAM_SEPS = [";", "; ", " ; ", " ;"]
 
 
+def vary_params(rng, ps):
+    """the same parameters as an offer may spell them: any order, any letter case of the keys"""
+    ps = list(ps)
+    rng.shuffle(ps)
+    out = []
+    for x in ps:
+        k, _, v = x.partition("=")
+        out.append(rng.choice([k, k, k.upper(), k.title()]) + "=" + v)
+    return out
+
+
 def render(case):
     """header text of a structured case"""
     st = case.get("style", 0)
@@ -252,6 +263,10 @@ class NegotiationStream(Stream):
             S("mime", [("text/*", [], "0.9"), ("text/html", [], "0.2"), ("*/*", [], "0.5")], ["text/html", "text/plain", "image/png"]),
             S("mime", [("text/html", ["level=1"], "0.3"), ("text/html", [], "0.7"), ("*/*", [], "0.1")], ["text/html;level=1", "text/html", "text/plain"]),
             S("mime", [("*/*", [], "0.5"), ("text/html", [], "0.5")], ["image/png", "text/html"]),
+            # parameters are a set: the offer spells them in another order / key case
+            S("mime", [("text/html", ["level=1", "charset=utf-8"], "0.9"), ("text/*", [], "0.2")], ["text/plain", "text/html;charset=utf-8;level=1"]),
+            S("mime", [("text/html", ["level=1", "charset=utf-8"], "0"), ("text/*", [], None)], ["text/html;charset=utf-8;level=1", "text/plain"]),
+            S("mime", [("text/html", ["level=1", "charset=utf-8", "v=2"], "0.9"), ("*/*", [], "0.2")], ["image/png", "text/html; V=2; Level=1; CHARSET=utf-8"]),
             S("mime", [("text/html", [], "0"), ("*/*", [], "1")], ["text/html", "text/plain"]),
             S("mime", [("text/html", [], "abc"), ("text/plain", [], "2"), ("image/png", [], "-1"), ("application/json", [], "0.001")], ["text/html", "text/plain", "image/png", "application/json"]),
             S("mime", [("text/html", [], "1.000"), ("TEXT/HTML", [], "1"), ("text/plain", [], None)], ["text/plain", "text/html"]),
@@ -277,10 +292,13 @@ class NegotiationStream(Stream):
             if grey and rng.random() < 0.15:
                 r = rng.choice(MIME_ODD)
             if ("*" not in r or grey) and rng.random() < 0.3:
-                p = rng.sample(MIME_PARAMS[:3] if rng.random() < 0.7 else MIME_PARAMS, rng.choice([1, 1, 2]))
-                keys = [x.partition("=")[0].lower() for x in p]
-                if len(set(keys)) != len(keys):
-                    p = p[:1]
+                cand = rng.sample(MIME_PARAMS[:3] if rng.random() < 0.5 else MIME_PARAMS, rng.choice([1, 1, 2, 2, 3]))
+                p, seen = [], set()
+                for x in cand:  # one parameter per key (dict semantics of parse_options_header)
+                    k = x.partition("=")[0].lower()
+                    if k not in seen:
+                        seen.add(k)
+                        p.append(x)
         elif grey and rng.random() < 0.1:
             p = ["x=1"]
         x = rng.random()
@@ -307,7 +325,8 @@ class NegotiationStream(Stream):
                         t, sub = r.split("/")
                         if sub == "*":
                             sub = rng.choice(["html", "plain", "json", "png"])
-                        o = f"{t}/{sub}" + (rng.choice([";", "; "]) + rng.choice([";", "; "]).join(it["p"]) if it["p"] and rng.random() < 0.6 else "")
+                        ps = vary_params(rng, it["p"])
+                        o = f"{t}/{sub}" + (rng.choice([";", "; "]) + rng.choice([";", "; "]).join(ps) if ps and rng.random() < 0.7 else "")
                 elif r != "*":
                     o = rng.choice([r, r, r.lower(), r.upper(), primary(r), r + "-x"]) if cls == "lang" else rng.choice([r, r.lower(), r.upper()])
             out.append(o)
@@ -338,6 +357,9 @@ class NegotiationStream(Stream):
         while True:
             cls = rng.choice(CLASSES)
             x = rng.random()
+            if rng.random() < 0.06:
+                yield from self.param_order_cases(rng)
+                continue
             if x < 0.55:
                 # strict structured case: goes through the oracle
                 n = rng.choice([0, 1, 1, 2, 2, 3, 3, 4, 5])
@@ -356,7 +378,29 @@ class NegotiationStream(Stream):
                 n = rng.randrange(1, 12)
                 yield {"cls": cls, "header": "".join(rng.choice(RAW_TOK[cls]) for _ in range(n)), "offers": self.rand_offers(rng, cls, True)}
 
+    def param_order_cases(self, rng, all_perms=False):
+        """a range with >= 2 parameters competing with a less specific range of another q; the offer
+        spells the same parameters in every other order (and other key case): parameters are a set"""
+        t, sub = rng.choice([("text", "html"), ("application", "json"), ("text", "plain")])
+        ps = rng.sample(["level=1", "charset=utf-8", "v=2", "format=flowed"], rng.choice([2, 2, 3]))
+        qa, qb = rng.sample(["0.9", "0.2", "0", "0.5", None, "1", "0.001"], 2)
+        wild = rng.choice([f"{t}/*", "*/*"])
+        items = [{"r": f"{t}/{sub}", "p": ps, "q": qa, "qpos": 99}, {"r": wild, "p": [], "q": qb, "qpos": 99}]
+        if rng.random() < 0.5:
+            items.reverse()
+        other = f"{t}/other" if wild != "*/*" or rng.random() < 0.5 else "image/png"
+        perms = list(itertools.permutations(ps))
+        if not all_perms:
+            perms = [rng.choice(perms[1:])]
+        for perm in perms:
+            spelled = [rng.choice([k, k.upper(), k.title()]) + "=" + v for k, _, v in (x.partition("=") for x in perm)]
+            offer = f"{t}/{sub}" + rng.choice([";", "; "]) + rng.choice([";", "; "]).join(spelled)
+            offers = [other, offer] if rng.random() < 0.5 else [offer, other]
+            yield {"cls": "mime", "items": items, "offers": offers, "style": rng.randrange(48)}
+
     def exhaustive_cases(self, rng):
+        for _ in range(300):
+            yield from self.param_order_cases(rng, all_perms=True)
         """every ordered selection (with repetition) of <= 3 items from a small pool of range x q
         atoms against fixed offer lists (both offer orders at random), then every order of 40
         random 4-item selections per class"""
